@@ -168,8 +168,6 @@ def work(payload, skip, report):
         for ns in nss:
             prefix = names[ns] + ":" if ns != 0 else ""
             for t0, b, m, red in itertools.product(TITLES, BODIES, MODELS, (None, "Target page")):
-                if t0 == "Main:Foo" and ns != 0:
-                    continue
                 page = {"title": prefix + t0, "ns": ns, "body": b, "model": m}
                 if red is not None:
                     page["redirect"] = red
@@ -229,6 +227,9 @@ def catalogue():
     c.append({"title": "Module:Foo/data.json", "ns": 828, "body": "{\"k\": 1}", "model": "json"})
     c.append({"title": "Template:Bar", "ns": 10, "body": "#REDIRECT [[Template:Foo bar]]", "model": "wikitext",
               "redirect": "Template:Foo bar"})
+    # a page NAME that begins with "Main:" outside the main namespace, next to the page without it
+    c.append({"title": "Template:Main:Foo", "ns": 10, "body": "main-foo", "model": "wikitext"})
+    c.append({"title": "Module:Main:Foo", "ns": 828, "body": "return 1", "model": "Scribunto"})
     c.append({"title": "Template:Baz.css", "ns": 10, "body": "#REDIRECT [[Template:Foo/styles.css]]", "model": "css",
               "redirect": "Template:Foo/styles.css"})
     return c
